@@ -68,7 +68,7 @@ def tests(seed):
         if excl: cmd += ' -E "^(%s)$"' % '|'.join(excl)
         t = sh(cmd)
         lines = t.stdout.splitlines()
-        failed = [l.split(' - ')[1].split(' ')[0] for l in lines if ' - ' in l and ('(Failed)' in l or '(Timeout)' in l or 'Exception' in l or '(Not Run)' in l)]
+        failed = [l.split(' - ')[1].split(' ')[0] for l in lines if ' - ' in l and l.strip()[:1].isdigit() and '(' in l]    # the 'The following tests FAILED:' section: '<n> - <name> (<reason>)'
         summ = [l for l in lines if 'tests passed' in l or 'tests failed' in l]
         res.update({'ran': 'cmake --build + ' + cmd.replace(WT, '<scratch worktree>'), 'summary': summ[-1] if summ else '', 'failed': sorted(set(failed)), 'excluded_slow': excl})
         res['confirmed'] = bool(summ) and (sorted(set(failed)) in ([], ['testserial']))
